@@ -603,6 +603,16 @@ func BuildSimple(pages [][]Placed, width, height int) ([]byte, error) {
 // BuildSimpleWidths is BuildSimple with an explicit /Widths array on the Helvetica
 // font (every code 32..126 gets glyph width w, in 1/1000 em) when w > 0.
 func BuildSimpleWidths(pages [][]Placed, width, height, w int) ([]byte, error) {
+	return buildSimple(pages, [2]int{}, width, height, w)
+}
+
+// BuildSimpleAt is BuildSimple with a MediaBox whose lower-left corner is origin: a page box need not start at
+// 0 0, and then the text coordinates do not lie in [0, width).
+func BuildSimpleAt(pages [][]Placed, origin [2]int, width, height int) ([]byte, error) {
+	return buildSimple(pages, origin, width, height, 0)
+}
+
+func buildSimple(pages [][]Placed, SimpleOrigin [2]int, width, height, w int) ([]byte, error) {
 	f := &pdfw.File{EOL: "lf"}
 	rev := pdfw.Revision{XRef: "table", Root: pdfw.Ref{Num: 1}}
 	kids := pdfw.Arr{}
@@ -616,7 +626,7 @@ func BuildSimpleWidths(pages [][]Placed, width, height, w int) ([]byte, error) {
 		}
 		b.WriteString("ET\n")
 		items = append(items, pdfw.Item{Num: n, Val: pdfw.Dict{{"Type", pdfw.Name("Page")}, {"Parent", pdfw.Ref{Num: 2}},
-			{"MediaBox", pdfw.Arr{pdfw.Int(0), pdfw.Int(0), pdfw.Int(width), pdfw.Int(height)}},
+			{"MediaBox", pdfw.Arr{pdfw.Int(SimpleOrigin[0]), pdfw.Int(SimpleOrigin[1]), pdfw.Int(SimpleOrigin[0] + width), pdfw.Int(SimpleOrigin[1] + height)}},
 			{"Resources", pdfw.Dict{{"Font", pdfw.Dict{{"F1", pdfw.Ref{Num: 3}}}}}}, {"Contents", pdfw.Ref{Num: n + 1}}}})
 		items = append(items, pdfw.Item{Num: n + 1, Stm: &pdfw.Stream{Data: []byte(b.String())}})
 		kids = append(kids, pdfw.Ref{Num: n})
